@@ -709,7 +709,34 @@ func (in *Interp) runSelect(layer *storeLayer, sel *sqlSelect, params []Value, o
 		if lim >= 0 && len(rs.rows) >= lim {
 			break
 		}
-		rs.rows = append(rs.rows, project(tuple, nil))
+		row := project(tuple, nil)
+		if sel.distinct {
+			dup := false
+			for _, prev := range rs.rows {
+				same := true
+				for k := range row {
+					if row[k] == nil || prev[k] == nil {
+						if row[k] != nil || prev[k] != nil {
+							same = false
+							break
+						}
+						continue
+					}
+					if !in.Branch(env.compare("=", row[k], prev[k]).(*sym.Term)) {
+						same = false
+						break
+					}
+				}
+				if same {
+					dup = true
+					break
+				}
+			}
+			if dup {
+				continue
+			}
+		}
+		rs.rows = append(rs.rows, row)
 	}
 	return rs
 }
